@@ -30,9 +30,10 @@ VARIABLES
   lastLo,    \* <<thread, key>> -> smallest sequence that explains the thread's previous read
   snapOf,    \* thread -> sequence of its most recent snapshot
   iterOf,    \* thread -> sequence captured by its most recent iterator
-  acks       \* value ids of acknowledged puts (exactly-once accounting)
+  acks,      \* value ids of acknowledged puts (exactly-once accounting)
+  ids        \* block-cache partition ids drawn by Table::open so far (RainCache: UniqueIds)
 
-vars == <<l, viol, runInfo, nk, hist, seq, ends, pend, lastLo, snapOf, iterOf, acks>>
+vars == <<l, viol, runInfo, nk, hist, seq, ends, pend, lastLo, snapOf, iterOf, acks, ids>>
 
 Ev == Rec[l]
 IsEv(n) == l <= Len(Rec) /\ Rec[l].e = n
@@ -43,12 +44,12 @@ V(props, check, keys, at) ==
 
 Fresh ==
   /\ hist' = <<>> /\ seq' = 0 /\ ends' = {0} /\ pend' = <<>> /\ lastLo' = <<>>
-  /\ snapOf' = <<>> /\ iterOf' = <<>> /\ acks' = {}
+  /\ snapOf' = <<>> /\ iterOf' = <<>> /\ acks' = {} /\ ids' = {}
 
 TraceInit ==
   /\ l = 1 /\ viol = <<>> /\ runInfo = [run |-> 0, seed |-> 0, tag |-> ""] /\ nk = 0
   /\ hist = <<>> /\ seq = 0 /\ ends = {0} /\ pend = <<>> /\ lastLo = <<>>
-  /\ snapOf = <<>> /\ iterOf = <<>> /\ acks = {}
+  /\ snapOf = <<>> /\ iterOf = <<>> /\ acks = {} /\ ids = {}
 
 Report == PrintT(<<"@@RUN", ToJson([run |-> runInfo.run, seed |-> runInfo.seed, tag |-> runInfo.tag,
                                     lines |-> l, viol |-> viol])>>)
@@ -64,7 +65,7 @@ TEnd ==
   /\ IsEv("End")
   /\ Report /\ PrintT(<<"@@END", l>>)
   /\ l' = l + 1
-  /\ UNCHANGED <<viol, runInfo, nk, hist, seq, ends, pend, lastLo, snapOf, iterOf, acks>>
+  /\ UNCHANGED <<viol, runInfo, nk, hist, seq, ends, pend, lastLo, snapOf, iterOf, acks, ids>>
 
 Has(f, x) == x \in DOMAIN f
 Put(f, x, y) == [z \in DOMAIN f \cup {x} |-> IF z = x THEN y ELSE f[z]]
@@ -76,7 +77,7 @@ TCall ==
   /\ pend' = Put(pend, Ev.t, [op |-> Ev.op, k |-> Ev.k, ops |-> Ev.ops, callSeq |-> seq,
                               committed |-> FALSE, cok |-> TRUE])
   /\ l' = l + 1
-  /\ UNCHANGED <<viol, runInfo, nk, hist, seq, ends, lastLo, snapOf, iterOf, acks>>
+  /\ UNCHANGED <<viol, runInfo, nk, hist, seq, ends, lastLo, snapOf, iterOf, acks, ids>>
 
 \* sequence publication of one group commit
 PutVals(ops) == {ops[i][3] : i \in {j \in 1..Len(ops) : ops[j][2] = 1}}
@@ -102,7 +103,7 @@ TCommit ==
                    THEN [pend[t] EXCEPT !.committed = TRUE, !.cok = Ev.ok] ELSE pend[t]]
      /\ viol' = (viol \o v1) \o v2
   /\ l' = l + 1
-  /\ UNCHANGED <<runInfo, nk, lastLo, snapOf, iterOf, acks>>
+  /\ UNCHANGED <<runInfo, nk, lastLo, snapOf, iterOf, acks, ids>>
 
 Feasible(k, lo, hi, res) == {s \in lo..hi : AbstractAt(hist, k, s) = res}
 
@@ -146,7 +147,7 @@ TRet ==
        [] OTHER -> UNCHANGED <<viol, lastLo, acks>>
   /\ pend' = Del(pend, Ev.t)
   /\ l' = l + 1
-  /\ UNCHANGED <<runInfo, nk, hist, seq, ends, snapOf, iterOf>>
+  /\ UNCHANGED <<runInfo, nk, hist, seq, ends, snapOf, iterOf, ids>>
 
 \* captures under the mutex
 TSnapshot ==
@@ -156,7 +157,7 @@ TSnapshot ==
        ((IF Ev.seq \notin ends THEN V(<<"C06">>, "SnapshotInsideGroup", <<Ev.seq>>, seq) ELSE <<>>)
         \o (IF Ev.seq # seq THEN V(<<"C05">>, "SnapshotNotAtPublished", <<Ev.seq>>, seq) ELSE <<>>))
   /\ l' = l + 1
-  /\ UNCHANGED <<runInfo, nk, hist, seq, ends, pend, lastLo, iterOf, acks>>
+  /\ UNCHANGED <<runInfo, nk, hist, seq, ends, pend, lastLo, iterOf, acks, ids>>
 
 TIterNew ==
   /\ IsEv("IterNew")
@@ -164,39 +165,56 @@ TIterNew ==
   /\ viol' = viol \o
        (IF Ev.seq \notin ends THEN V(<<"C06">>, "IteratorInsideGroup", <<Ev.seq>>, seq) ELSE <<>>)
   /\ l' = l + 1
-  /\ UNCHANGED <<runInfo, nk, hist, seq, ends, pend, lastLo, snapOf, acks>>
+  /\ UNCHANGED <<runInfo, nk, hist, seq, ends, pend, lastLo, snapOf, acks, ids>>
 
 TGetCapture ==
   /\ IsEv("GetCapture")
   /\ viol' = viol \o
        (IF Ev.seq \notin ends THEN V(<<"C06">>, "GetInsideGroup", <<Ev.seq>>, seq) ELSE <<>>)
   /\ l' = l + 1
+  /\ UNCHANGED <<runInfo, nk, hist, seq, ends, pend, lastLo, snapOf, iterOf, acks, ids>>
+
+\* Table::open drew a partition id for its blocks in the block cache: never one drawn before
+\* (two tables with the same id serve each other's blocks)
+TTableOpen ==
+  /\ IsEv("TableOpen")
+  /\ viol' = viol \o
+       (IF Ev.id \in ids THEN V(<<"C05">>, "PartitionIdReused", <<Ev.id>>, 0) ELSE <<>>)
+  /\ ids' = ids \cup {Ev.id}
+  /\ l' = l + 1
   /\ UNCHANGED <<runInfo, nk, hist, seq, ends, pend, lastLo, snapOf, iterOf, acks>>
+
+\* the handle is gone; the drivers open with fresh DbOptions, i.e. a fresh block cache
+TClosed ==
+  /\ IsEv("Closed")
+  /\ ids' = {}
+  /\ l' = l + 1
+  /\ UNCHANGED <<viol, runInfo, nk, hist, seq, ends, pend, lastLo, snapOf, iterOf, acks>>
 
 THang ==
   /\ IsEv("Hang")
   /\ viol' = viol \o V(<<"C09">>, "Hang", <<>>, 0)
   /\ l' = l + 1
-  /\ UNCHANGED <<runInfo, nk, hist, seq, ends, pend, lastLo, snapOf, iterOf, acks>>
+  /\ UNCHANGED <<runInfo, nk, hist, seq, ends, pend, lastLo, snapOf, iterOf, acks, ids>>
 
 TPanic ==
   /\ IsEv("Panic")
   /\ viol' = viol \o V(<<"C09">>, "Panic", <<>>, 0)
   /\ l' = l + 1
-  /\ UNCHANGED <<runInfo, nk, hist, seq, ends, pend, lastLo, snapOf, iterOf, acks>>
+  /\ UNCHANGED <<runInfo, nk, hist, seq, ends, pend, lastLo, snapOf, iterOf, acks, ids>>
 
 \* a call that never returned is reported by the driver as Hang; anything else is informational
 Known == {"Reset", "End", "Call", "Commit", "Ret", "Snapshot", "IterNew", "GetCapture", "Hang",
-          "Panic"}
+          "Panic", "TableOpen", "Closed"}
 
 TOther ==
   /\ l <= Len(Rec) /\ Rec[l].e \notin Known
   /\ l' = l + 1
-  /\ UNCHANGED <<viol, runInfo, nk, hist, seq, ends, pend, lastLo, snapOf, iterOf, acks>>
+  /\ UNCHANGED <<viol, runInfo, nk, hist, seq, ends, pend, lastLo, snapOf, iterOf, acks, ids>>
 
 TraceNext ==
   \/ TReset \/ TEnd \/ TCall \/ TCommit \/ TRet \/ TSnapshot \/ TIterNew \/ TGetCapture
-  \/ THang \/ TPanic \/ TOther
+  \/ THang \/ TPanic \/ TTableOpen \/ TClosed \/ TOther
 
 TraceSpec == TraceInit /\ [][TraceNext]_vars
 
